@@ -452,7 +452,7 @@ class DynModel(Model):
         if it.ty == ANY:
             q = V(iter_(it.term), SeqT(ANY))
             st.assume(seq_len(q.term) >= 0)
-            key = self.loop_key(ex, "for")
+            key = self.loop_key(ex, "for", s)
             return self.invariant_for(ex, s, key, q, lambda k: V(seq_at(q.term, k, ANY), ANY), st)
         return super().for_loop(ex, s, it, st)
 
